@@ -149,12 +149,27 @@ class Functor(IUnifiable):
         else:
             return YPFail()
 
+def copy_term(term, varmap):
+    """Returns a copy of the dereferenced term in which every unbound variable is replaced
+    by a fresh one (the same fresh one for each occurrence, recorded in varmap)."""
+    term = get_value(term)
+    if isinstance(term, Variable):
+        if term not in varmap:
+            varmap[term] = Variable()
+        return varmap[term]
+    if isinstance(term, Functor):
+        return Functor(term._name, [copy_term(a, varmap) for a in term._args])
+    return term
+
 class Answer:
-    """Data structure to represent predicates/facts."""
+    """Data structure to represent predicates/facts. A fact keeps its own copy of the
+    terms it was created from, and every use of the fact works on a renamed copy."""
     def __init__(self, values):
-        self.values = values
+        varmap = {}
+        self.values = [copy_term(v, varmap) for v in values]
     def match(self, args):
-        return unify_arrays(args, self.values)
+        varmap = {}
+        return unify_arrays(args, [copy_term(v, varmap) for v in self.values])
     def __str__(self):
         return f'Answer({[to_python(x) for x in self.values]})'
 
@@ -509,7 +524,7 @@ class YP(object):
         '''insert name(values) in the set of facts. If append is False, insert the
         fact at the beginning, otherwise at the end.'''
         clauses = self._find_clauses(name.name(), len(values))
-        answer = Answer([get_value(v) for v in values])
+        answer = Answer(values)
         if append:
             clauses = clauses + [answer]
         else:
